@@ -257,3 +257,110 @@ def index_spec_of(ix):
         "cm": [[jsonable(c), int(d)] for c, d in ix.chargemap.items()],
         "dual": bool(ix.dual),
     }
+
+
+# ------------------------------------------------- near-identical variants
+
+
+def _finish_variant(rng, spec, indices, labels, sectors=None, charge=None, sym=None):
+    """Re-derive a valid spec after an attribute change."""
+    sym = sym or spec["sym"]
+    g = GROUPS[sym]
+    charge = untuple(spec["charge"]) if charge is None else charge
+    if sectors is None:
+        secs = valid_sectors(sym, indices, charge)
+        if not secs:
+            charge = pick_charge(rng, sym, indices)
+            secs = valid_sectors(sym, indices, charge)
+        old = {tuple(untuple(s)) for s in spec["sectors"]}
+        full_old = len(old)
+        # keep roughly the same sparsity pattern
+        keep = [s for s in secs if tuple(s) in old]
+        extra = [s for s in secs if tuple(s) not in old]
+        secs = keep + [s for s in extra if rng.random() < 0.7]
+        if not secs:
+            secs = valid_sectors(sym, indices, charge)[:1]
+    else:
+        secs = sectors
+    new = dict(spec)
+    new.update(sym=sym, indices=jsonable(indices), charge=jsonable(charge),
+               sectors=jsonable(secs))
+    if sym == "Z4":
+        new["static"] = False
+    if spec["kind"] == "F":
+        if g.parity(charge):
+            if new.get("oddpos") is None:
+                new["oddpos"] = labels.next()
+        else:
+            new["oddpos"] = None
+    return new
+
+
+def variant_of(rng, spec, labels, kinds=None):
+    """A spec that differs from ``spec`` in exactly one attribute.
+    Returns (kind_of_change, new_spec) or (None, None)."""
+    import copy
+
+    idx = copy.deepcopy(spec["indices"])
+    nd = len(idx)
+    kinds = list(kinds or ["dual", "size", "label", "sector", "sym", "data", "charge"])
+    rng.shuffle(kinds)
+    for kind in kinds:
+        if kind == "dual" and nd:
+            i = rng.randrange(nd)
+            idx[i]["dual"] = not idx[i]["dual"]
+            return kind, _finish_variant(rng, spec, idx, labels)
+        if kind == "size" and nd:
+            i = rng.randrange(nd)
+            j = rng.randrange(len(idx[i]["cm"])) if idx[i]["cm"] else None
+            if j is None:
+                continue
+            d = idx[i]["cm"][j][1]
+            idx[i]["cm"][j][1] = d + 1 if d < 3 or rng.random() < 0.5 else d - 1
+            return kind, _finish_variant(rng, spec, idx, labels,
+                                         sectors=[untuple(s) for s in spec["sectors"]])
+        if kind == "label" and nd:
+            i = rng.randrange(nd)
+            have = [untuple(c) for c, _ in idx[i]["cm"]]
+            pool = [c for c in CHARGE_POOL[spec["sym"]] if c not in have]
+            if not pool or not have:
+                continue
+            j = rng.randrange(len(have))
+            idx[i]["cm"][j][0] = jsonable(rng.choice(pool))
+            idx[i]["cm"] = [list(p) for p in sorted(
+                (untuple(c), d) for c, d in idx[i]["cm"])]
+            idx[i]["cm"] = [[jsonable(c), d] for c, d in idx[i]["cm"]]
+            return kind, _finish_variant(rng, spec, idx, labels)
+        if kind == "sector" and len(spec["sectors"]) > 1:
+            secs = [untuple(s) for s in spec["sectors"]]
+            secs.pop(rng.randrange(len(secs)))
+            return kind, _finish_variant(rng, spec, idx, labels, sectors=secs)
+        if kind == "charge" and nd:
+            ch = pick_charge(rng, spec["sym"], idx)
+            if ch == untuple(spec["charge"]):
+                continue
+            return kind, _finish_variant(rng, spec, idx, labels, charge=ch)
+        if kind == "sym":
+            # same labels, different group: Z2 <-> U1 on charges {0, 1}
+            other = {"Z2": "U1", "U1": "Z2"}.get(spec["sym"])
+            if other is None:
+                continue
+            if any(untuple(c) not in (0, 1) for ix in idx for c, _ in ix["cm"]):
+                continue
+            ch = untuple(spec["charge"])
+            if ch not in (0, 1):
+                continue
+            secs = [untuple(s) for s in spec["sectors"]]
+            ok = valid_sectors(other, idx, ch)
+            if any(s not in ok for s in secs):
+                # U1-valid sectors are Z2-valid but not conversely: keep common
+                secs = [s for s in secs if s in ok]
+                if not secs:
+                    continue
+            return kind, _finish_variant(rng, spec, idx, labels, sectors=secs,
+                                         charge=ch, sym=other)
+        if kind == "data":
+            new = dict(spec)
+            new["seed"] = rng.randrange(2**31)
+            return kind, new
+    return None, None
